@@ -33,11 +33,8 @@ unparsed stores through `self` are recorded as a write of the whole slot.
 """
 import ast, os, glob, json
 
-try:
-    import translate as _tr
-    REPO = _tr.REPO
-except Exception:  # stand-alone use
-    REPO = os.environ.get('NITIME_REPO', '/repo')
+# (do not import `translate` here: it imports this module while loading its extensions)
+REPO = os.environ.get('NITIME_REPO', '/repo')
 
 DECOS = {'setattr_on_read', 'auto_attr'}
 FILES = ['nitime/analysis/base.py', 'nitime/analysis/coherence.py', 'nitime/analysis/spectral.py',
@@ -184,6 +181,7 @@ class GetterWalk:
         self.alias = {}        # local name -> ('getter'|'slot'|'input', name)
         self.attr_alias = {}   # self.<y> -> slot x  (after `self.y = self.x`)
         self.killed = set()
+        self.flags_seen = []
         self.whole_excl = {}
         self.notes = []
         self.depth = 0
@@ -234,6 +232,12 @@ class GetterWalk:
             self.add(self.writes, name if key is None else name + '.' + key, guard)
 
     def guard_of(self, test):
+        g = self.guard_of0(test)
+        if g is not None and g[0] not in self.flags_seen:
+            self.flags_seen.append(g[0])     # a recognised test is a flag of the class even when nothing hangs on it
+        return g
+
+    def guard_of0(self, test):
         """(flag name, polarity) or None"""
         pol = True
         t = test
@@ -652,6 +656,10 @@ def tables(repo=None):
                 return [t for t in slots if t == b or t.startswith(b + '.')]
             return [s]
         flags = []
+        for g in getters:
+            for f in eff[g].flags_seen:
+                if f not in flags:
+                    flags.append(f)
 
         def fl(g):
             if g is None:
@@ -756,6 +764,17 @@ def gen_analyzers():
         L.append('    initDerived := [%s]' % ', '.join(str(i) for i in c['initDerived']))
         L.append('    inherited := [%s] }' % ', '.join(str(i) for i in c['inherited']))
         L.append('')
+    def san(x):
+        return ''.join(ch if ch.isalnum() else '_' for ch in x)
+    L.append('/-! ids by name (so that the property theorems do not depend on the order of the tables) -/')
+    for c in t['classes']:
+        for i, g in enumerate(c['getters']):
+            L.append('def g_%s_%s : Nat := %d' % (c['cls'], san(g), i))
+        for i, g in enumerate(c['slots']):
+            L.append('def s_%s_%s : Nat := %d' % (c['cls'], san(g), i))
+        for i, g in enumerate(c['flags']):
+            L.append('def f_%s_%s : Nat := %d' % (c['cls'], san(g), i))
+    L.append('')
     L.append('def allSpecs : List AnalyzerSpec := [%s]' % ', '.join(names))
     L.append('')
     L.append('/-- `ResetMixin.reset` walks the class dictionaries of the whole MRO (`false`: only `self.__class__.__dict__`; also `false` when the shape was not recognised) -/')
